@@ -4,7 +4,8 @@
     Models: Sml/Encoder.v (sml.Encoder: tree walk, every option, header, writeStrictASCII),
     Sml/StrictAscii.v (parseASCIIStrict with Go's rune iteration), Sml/StrictParser.v (the strict
     parser: messages, header, comments, types, sizes, lists, JIS-8/localized scanners,
-    strings.Fields, ParseInt/ParseUint base 0, booleans, construction checks).
+    strings.Fields, ParseInt/ParseUint base 0, booleans, construction checks, the list nesting
+    cap secs2.MaxListDepth: bridge Gen/BridgeStrictParser.v to the regenerated constant).
     Proofs: Sml/StrictAsciiProofs.v, Sml/StrictRoundtrip*.v, Sml/StrictParserOutput.v,
     Sml/StrictReparse.v.
 
@@ -19,7 +20,8 @@
 From Coq Require Import ZArith Bool List Lia.
 From GoSecs Require Import Base.Decimal Base.DecimalProofs Base.Utf8 Sml.Syntax Sml.Encoder
   Sml.StrictAscii Sml.StrictAsciiProofs Sml.StrictParser Sml.StrictRoundtripDefs
-  Sml.StrictRoundtripFinal Sml.StrictParserOutput Sml.StrictReparse Sml.StrictToyOracle.
+  Sml.StrictRoundtripFinal Sml.StrictParserOutput Sml.StrictReparse Sml.StrictToyOracle
+  Gen.Gen Gen.BridgeStrictParser.
 Import ListNotations.
 Open Scope Z_scope.
 
@@ -39,8 +41,10 @@ Print Assumptions C13_strict_ascii_roundtrip.
 
 (** Every data message of the grammar ([dom_msg true]: lists, ASCII items of ALL byte values,
     binary, boolean, integers of every width, floats incl. NaN/Inf/-0,
-    JIS-8 / localized text under the restriction, empty items, any nesting; stream 0..127,
-    function 0..255, W only on odd functions) and every option combination with strict mode on
+    JIS-8 / localized text under the restriction, empty items, nesting up to
+    secs2.MaxListDepth = 64 lists (hypothesis [depth body <= max_list_depth] inside [dom_msg]: the
+    parser's cap since fix 95562b6, finding C13-depth-cap); stream 0..127, function 0..255, W only
+    on odd functions) and every option combination with strict mode on
     (quote style x S/F quote style x binary style x whitespace indent): the strict parser returns
     exactly one message with the same S/F/W and an equal body (NaN payload and LSH aside). *)
 Theorem C13_encode_parse :
@@ -53,6 +57,25 @@ Theorem C13_encode_parse :
     exists m' st, parse_strict fparse (encode_msg ffmt quote o m) = POk [m'] st /\ msg_eqv narrow32 m m'.
 Proof. exact encode_parse_current. Qed.
 Print Assumptions C13_encode_parse.
+
+(** "any nesting" is REFUTED for the code as it is (finding C13-depth-cap): 65 nested lists around
+    an empty binary item are an item of the grammar in every other respect; the strict encoder
+    renders them, the strict parser answers with its nesting error. (64 levels are read back:
+    example [C13_depth_64_nonvacuous].) The cap was introduced for C14 (an unbounded recursive
+    parser overflows the goroutine stack, which is fatal); the binary decoder has the same cap, so
+    such a message cannot travel over HSMS or SECS-I either. *)
+Theorem C13_encode_parse_depth_refuted :
+  forall ffmt quote fparse quote_plain,
+    opts_ok strict_opts0 = true /\
+    dom_item true quote_plain (m_body (msg_deep 65)) = true /\ depth (m_body (msg_deep 65)) = 65%nat /\
+    exists off, parse_strict fparse (encode_msg ffmt quote strict_opts0 (msg_deep 65)) = PErr PE_Depth off.
+Proof. exact encode_parse_depth_refuted. Qed.
+Print Assumptions C13_encode_parse_depth_refuted.
+
+(** the cap of the model is the constant the current source declares *)
+Theorem C13_bridge_max_list_depth : Gen.secs2.MaxListDepth = max_list_depth.
+Proof. exact bridge_max_list_depth. Qed.
+Print Assumptions C13_bridge_max_list_depth.
 
 (** Refutation (finding C13-localized-quote): localized text that strconv.Quote escapes —
     witness U+00A0, which is no quote, backslash, angle bracket or control character — is read
@@ -69,7 +92,8 @@ Print Assumptions C13_encode_parse_localized_refuted.
 (** ---------- second half: what the parser accepts re-encodes and re-parses equal ---------- *)
 
 (** On ANY byte text, every message the strict parser returns has S/F in range, W only on odd
-    functions, and a body that is empty or well formed within the secs2 size limits. *)
+    functions, and a body that is empty or well formed within the secs2 size limits and nested no
+    deeper than the cap. *)
 Theorem C13_parser_output :
   forall (fparse : fwidth -> bytes -> option Z),
     (forall w tok v, fparse w tok = Some v -> fdom w v = true) ->
@@ -121,3 +145,9 @@ Proof.
   split; [exact toy_fparse_dom|]. split; [reflexivity|]. split; [vm_compute; reflexivity|].
   eexists. vm_compute. reflexivity.
 Qed.
+
+(** the nesting boundary: 64 levels satisfy the domain and are read back *)
+Example C13_depth_64_nonvacuous :
+  dom_msg true toy_quote_plain (msg_deep 64) = true /\
+  exists st, parse_strict toy_fparse (encode_msg toy_ffmt toy_quote strict_opts0 (msg_deep 64)) = POk [msg_deep 64] st.
+Proof. split; [vm_compute; reflexivity|]. eexists. vm_compute. reflexivity. Qed.
